@@ -38,10 +38,13 @@ func checkC04(c Node) Verdict {
 				// the same tables with the left side's numeric keys held as Go ints: equal numbers of different Go
 				// types have to meet as well (the hash path leaves such keys to the nested loop)
 				sig = append(append([]string{}, sig...), "typed-keys")
-				for _, r := range doc["l"].([]any) {
-					if m, ok := r.(map[string]any); ok {
-						if f, ok := m["a"].(float64); ok && f == float64(int(f)) {
-							m["a"] = int(f)
+				// (on the right side every other row: one side then holds the same number under two Go types)
+				for ti, tc := range []struct{ table, col string }{{"l", "a"}, {"r", "m"}} {
+					for ri, r := range doc[tc.table].([]any) {
+						if m, ok := r.(map[string]any); ok && (ti == 0 || ri%2 == 0) {
+							if f, ok := m[tc.col].(float64); ok && f == float64(int(f)) {
+								m[tc.col] = int(f)
+							}
 						}
 					}
 				}
